@@ -139,6 +139,7 @@ def run(ctx, rep):
     cases += [sessgen.rand_history(rng, v3=True) for _ in range(ctx.n(500, 6000))]
     cases += sessgen.late_hs_histories(rng, ctx.n(60, 1200))          # handshake replies arriving after the read timeout
     cases += sessgen.lifetime_histories(rng, ctx.n(30, 400))          # re-handshake on a connection about to reach its lifetime
+    cases += sessgen.key_age_histories(rng, ctx.n(30, 300))           # exchanges between a handshake and its 12 h expiry
     cases += sessgen.reauth_on_live_session(rng, ctx.n(30, 400))      # other credentials offered on a live authenticated session
     mo = ctx.model.batch([sess.model_case(*c) for c in cases])
     for c, (st, outs) in zip(cases, mo):
